@@ -23,8 +23,18 @@ class Blocked(BaseException):
     pass
 
 
+def _fine_grained(code):
+    """Functions of the SDK that touch state shared between branch threads without a lock of their own."""
+    fn = code.co_filename
+    return (fn.endswith("aws_durable_execution_sdk_python/context.py") and code.co_name in (
+        "_create_step_id_for_logical_step", "_create_step_id", "create_child_context")) or (
+        fn.endswith("aws_durable_execution_sdk_python/concurrency/executor.py") and code.co_name in ("_execute_item_in_child_context",))
+
+
 def run_invocation(sc, backend, seed, fault=None, schedule=None):
-    sim = Sim(schedule=schedule, seed=seed, policy="random", max_points=150000, wall_limit=40, quiesce_limit=120.0)
+    sim = Sim(schedule=schedule, seed=seed, policy="pct" if seed % 3 == 0 else "random", max_points=150000, wall_limit=40, quiesce_limit=120.0)
+    if sc.get("fine"):
+        sim.line_points = _fine_grained
     res = {"events": [], "bodies": 0, "max_bodies": 0}
     backend.plan = {}
     backend.clock = lambda: sim.clock
@@ -367,6 +377,7 @@ def oracles(ctx, prop, ex, component):
     cfg = sc.get("completion") or {}
     first_batches = {}
     entered = {}
+    branch_done = {}
     # C08: one id per program position (the scenario names every operation by its position), over all invocations
     id_of, name_of = {}, {}
     for k, inv in enumerate(ex["invs"]):
@@ -471,6 +482,21 @@ def oracles(ctx, prop, ex, component):
                 blkno = int(ev[1][1:].split(".")[0])
                 if blkno in closed_ev:
                     V("C10.orphan_update_handed_over_after_completion", {"inv": k, "update": ev[1:4], "block": blkno})
+        for ev in inv["events"]:
+            if ev[0] == "upd" and ev[3] == "CONTEXT" and ev[2] in ("SUCCEED", "FAIL") and ev[1] and (
+                    ev[1].startswith("map-item-") or ev[1].startswith("parallel-branch-")):
+                branch_done[ev[1]] = ev[2]
+        if inv["status"] == "PENDING" and not inv["fault_fired"]:
+            maps = [(n_, b_) for n_, b_ in enumerate(sc["blocks"]) if b_["kind"] in ("map", "parallel")]
+            closed_now = {int(ev[1][2:]) - 1 for i2 in ex["invs"][:k + 1] for ev in i2["events"]
+                          if ev[0] == "upd" and ev[3] == "CONTEXT" and ev[2] in ("SUCCEED", "FAIL") and ev[1] and ev[1].startswith("p:")}
+            if len(maps) == 1 and maps[0][0] not in closed_now:
+                nb_ = len(maps[0][1]["branches"])
+                s_ = sum(1 for v_ in branch_done.values() if v_ == "SUCCEED")
+                f_ = sum(1 for v_ in branch_done.values() if v_ == "FAIL")
+                if nb_ and expected_policy(cfg, nb_, s_, f_)[0]:
+                    # the policy is decided by the branch outcomes already recorded, yet the call suspended instead of returning
+                    V("C09.suspended_although_policy_decided", {"inv": k, "succeeded": s_, "failed": f_, "total": nb_, "config": cfg})
         if inv["status"] == "PENDING":
             if not inv["enabled_after"] and not inv.get("rearmed"):
                 V("C07.pending_with_nothing_armed", {"inv": k})
@@ -530,6 +556,11 @@ def gen_timer_race(rng):
         b = [{"a": "cbnew"}, {"a": "sleep", "secs": s_}, {"a": "cbres"}]
     else:
         b = [{"a": "step", "out": {"ok": "s"}, "yield": 1, "sleep": s_}, rng.choice([{"a": "cb"}, {"a": "wait", "secs": 3}, {"a": "raise", "cls": "Boom", "msg": "raised"}])]
+    if rng.random() < 0.3:
+        # a branch whose re-run (after its timer) ends at once without any blocking call, while a sibling still runs:
+        # the re-submitted task can finish before the timer thread has attached its done-callback
+        a = [{"a": "cbnew"}, {"a": "wait", "secs": s_}, {"a": "cbres"}]
+        b = [{"a": "step", "out": {"ok": "s"}, "yield": 1, "sleep": s_ + 2}]
     branches = [a, b]
     if rng.random() < 0.4:
         branches.append(rng.choice([[{"a": "cb"}], [{"a": "step", "out": {"ok": "t"}, "yield": 2, "sleep": s_}]]))
@@ -552,12 +583,23 @@ def gen_late_begin(rng):
                        {"kind": "seq", "actions": [{"a": "step", "out": {"ok": "s"}}]}], "completion": comp}
 
 
+def gen_large_early(rng):
+    """Early decision with branches still unstarted or running, a result over the (patched) checkpoint limit, and a later
+    suspension: the batch is rebuilt from its children on replay."""
+    sc = gen_late_begin(rng)
+    sc["ckpt_limit"] = rng.choice([30, 60])
+    sc["blocks"][1] = {"kind": "seq", "actions": [{"a": "wait", "secs": 1}]}
+    return sc
+
+
 def gen_scenario(rng, zero_p=0.05):
     x = rng.random()
     if x < 0.15:
         return gen_timer_race(rng)
     if x < 0.30:
         return gen_late_begin(rng)
+    if x < 0.40:
+        return gen_large_early(rng)
     sc = gen_scenario0(rng, zero_p)
     if rng.random() < 0.25:
         sc["ckpt_limit"] = rng.choice([30, 60, 120])
